@@ -218,7 +218,12 @@ class TimedList(Generic[Item]):
             ``TimedList`` with ``rows`` default
         """
         df = pd.DataFrame(cls._default())
-        return cls(df.loc[df.index.repeat(rows)].reset_index(drop=True))
+        df = df.loc[df.index.repeat(rows)].reset_index(drop=True)
+        # A list-valued default leaves NaN in the default row: fill it per row
+        for col_name, (_, default) in cls._item_class()._props.items():
+            if isinstance(default, list):
+                df[col_name] = [deepcopy(default) for _ in range(rows)]
+        return cls(df)
 
     def append(
         self, val: Series | TimedList | pd.Series | pd.DataFrame, sort: bool = False
